@@ -27,7 +27,7 @@ var flavours = []flavour{
 	{"fixed[-2^62,2^62]", 1 << 62, -(1 << 62)},
 }
 
-var autoValues = []int64{0, 0, 1, -1, 2, 3, 5, 7, 8, 100, 255, 256, -256, 1000, 65535, 65536, 1 << 31, -(1 << 31), 1 << 40, -(1 << 40), 1 << 62, -(1 << 62), math.MaxInt64, math.MinInt64, math.MinInt64 + 1}
+var autoValues = []int64{0, 0, 1, -1, 2, 3, 5, 7, 8, 100, 255, 256, -256, 1000, 65535, 65536, 1 << 31, -(1 << 31), 1 << 40, -(1 << 40), 1 << 60, 1 << 61, -(1 << 61), 1<<62 - 1, 1 << 62, -(1 << 62), math.MaxInt64, math.MinInt64, math.MinInt64 + 1}
 
 func newIndex(is64 bool, f flavour) index {
 	if is64 {
